@@ -18,50 +18,51 @@ From FB.Proofs Require Import FsLemmas JsonLaws ReplayLaws CleanLaws BuildFileLa
      SimA0 SimARun SimA1 SimA2Base SimA2 SimA3 SimA3Built SimA3Log SimA2Claim SimA2Pre SimA2Finish SimA2Sub SimA2Node SimAStart.
 Import ListNotations.
 Open Scope list_scope.
-Open Scope string_scope.
 
 Local Notation RInv2' := (RInv2 (fun _ => True)).
 
 (* ------------------------------------------------------------------ the decision hypotheses follow from the ViewK8 statements *)
 Lemma lookup_agree_of_statement : lookup_agree_statement -> lookup_agree_hyp.
 Proof.
-  intros H st T W w s0 p f sa skw wl cached (HP & _ & Hunc & _) _ _ _ _ El.
+  intros H st T W w s0 p f sa skw wl cached _ (HP & _ & Hunc & _) _ _ _ _ El.
   rewrite core_hit_none_iff.
   apply (H (p :: T) W w s0 p f sa skw wl cached (s4_sim _ _ _ _ HP) (s4_rinv _ _ _ _ HP) (or_introl eq_refl) Hunc El).
 Qed.
 
 Lemma sblookup_agree_of_statement : sblookup_agree_statement -> sblookup_agree_hyp.
 Proof.
-  intros H st T W w s f sa skw wl cached HS _ _ _ _ _ Hunc El.
+  intros H st T W w s f sa skw wl cached _ HS _ _ _ _ _ Hunc El.
   apply (H T W w s _ f wl cached (Sim4_sim3 _ _ _ _ HS) (Sim4_rinv2 _ _ _ _ HS) Hunc El).
 Qed.
 
 Section Main.
-  Hypothesis Hlook : lookup_agree_hyp.
-  Hypothesis Hhit : hit_agree_hyp.
-  Hypothesis Hsblook : sblookup_agree_hyp.
-  Hypothesis Hsbhit : sbhit_agree_hyp.
+  (* [ok]: the class of previous caches for which the hypotheses are assumed *)
+  Variable ok : cache -> Prop.
+  Hypothesis Hlook : lookup_agree_hyp_for ok.
+  Hypothesis Hhit : hit_agree_hyp_for ok.
+  Hypothesis Hsblook : sblookup_agree_hyp_for ok.
+  Hypothesis Hsbhit : sbhit_agree_hyp_for ok.
 
-  Lemma bf_node_ok : bf_node_statement.
-  Proof. exact (bf_node pre_ok claim_ok finish_ok built Hlook Hhit). Qed.
+  Lemma bf_node_ok : bf_node_statement_for ok.
+  Proof. exact (bf_node ok pre_ok claim_ok finish_ok_cf built Hlook Hhit). Qed.
 
-  Lemma sb_node_ok : sb_node_statement.
-  Proof. exact (sb_node built Hsblook Hsbhit). Qed.
+  Lemma sb_node_ok : sb_node_statement_for ok.
+  Proof. exact (sb_node_for ok built Hsblook Hsbhit). Qed.
 
   (* ---------------------------------------------------------------- every program *)
-  Theorem sim4_run_thm : forall pr old,
+  Theorem sim4_run_thm : forall pr old, ok old ->
     AllTargets tgtP pr -> QueriesOk pr -> WfArgs pr -> TargetsClear old pr -> TargetsApart old pr ->
     forall st, NoNest st pr ->
     forall tg pend subs subs' T W w s w' r l s' r' pend' l',
       w_old w = old -> Sim4 T W w s -> Ctx4 st tg pend w -> recs_rel subs subs' ->
       run pr tg subs w = (w', (r, l)) -> core_run pr tg pend subs' s = (s', (r', pend', l')) ->
       run_post st tg W w w' r l s' r' pend' l'.
-  Proof. exact (sim4_run bf_node_ok sb_node_ok). Qed.
+  Proof. exact (sim4_run ok bf_node_ok sb_node_ok). Qed.
 
   (* in the shape of ViewK8.sim3_run_statement: the premises Sim3 / RInv2 / Ctx are strengthened to
      Sim4 / Ctx4, two side conditions are added (TargetsApart, WfArgs) *)
   Theorem sim3_run_thm : forall pr st tg pend subs subs' T W w s w' r l s' r' pend' l',
-    AllTargets tgtP pr -> NoNest st pr -> QueriesOk pr -> WfArgs pr ->
+    ok (w_old w) -> AllTargets tgtP pr -> NoNest st pr -> QueriesOk pr -> WfArgs pr ->
     TargetsClear (w_old w) pr -> TargetsApart (w_old w) pr ->
     Sim4 T W w s -> Ctx4 st tg pend w -> recs_rel subs subs' ->
     run pr tg subs w = (w', (r, l)) -> core_run pr tg pend subs' s = (s', (r', pend', l')) ->
@@ -69,8 +70,8 @@ Section Main.
                   r = r' /\ recs_rel l l' /\ vis_log (w_log w') = vis_log (k_log s') /\
                   Sim4 T' W' w' s' /\ Ctx4 st tg pend' w'.
   Proof.
-    intros pr st tg pend subs subs' T W w s w' r l s' r' pend' l' Hat Hnn Hqk Hwa Hcl Hap HS HC Hsubs H1 H2.
-    destruct (sim4_run_thm pr (w_old w) Hat Hqk Hwa Hcl Hap st Hnn tg pend subs subs' T W w s w' r l s' r' pend' l'
+    intros pr st tg pend subs subs' T W w s w' r l s' r' pend' l' Hokw Hat Hnn Hqk Hwa Hcl Hap HS HC Hsubs H1 H2.
+    destruct (sim4_run_thm pr (w_old w) Hokw Hat Hqk Hwa Hcl Hap st Hnn tg pend subs subs' T W w s w' r l s' r' pend' l'
                 eq_refl HS HC Hsubs H1 H2) as (T' & W' & A1 & A2 & A3 & A4 & A5 & A6 & A7).
     exists W', T'. split; [apply (Sim4_sim3 _ _ _ _ A1)|]. split; [apply (Sim4_rinv2 _ _ _ _ A1)|].
     split.
@@ -93,38 +94,38 @@ Section Main.
   (* in the shape of ViewK8.build_agree_statement (added: old_keys_ok — true of every cache that
      was read from a cache file —, TargetsApart, WfArgs) *)
   Theorem build_agree_thm : forall w cachefile old nm svers root w1 w2 r l,
-    fs_wf (w_fs w) -> old_ok old cachefile -> WfCache old -> old_keys_ok old -> w_faults w = [] ->
+    ok old -> fs_wf (w_fs w) -> old_ok old cachefile -> WfCache old -> old_keys_ok old -> w_faults w = [] ->
     path_ok (dirname cachefile) = true -> isdir (w_fs w) cachefile = false -> maxlen (w_fs w) < walk_fuel ->
-    vdir (start_world w cachefile old nm svers) (dirname cachefile) = true ->
+    vdir (Build.start_world w cachefile old nm svers) (dirname cachefile) = true ->
     AllTargets tgtP root -> NoNest [] root -> QueriesOk root -> WfArgs root ->
     TargetsClear old root -> TargetsApart old root ->
-    make_dirs (dirname cachefile) (start_world w cachefile old nm svers) = (w1, inl []) ->
-    run root None [] (set_log (LInvoke "<root>" None PNone PNone :: w_log w1) w1) = (w2, (r, l)) ->
+    make_dirs (dirname cachefile) (Build.start_world w cachefile old nm svers) = (w1, inl []) ->
+    run root None [] (set_log (LInvoke "<root>"%string None PNone PNone :: w_log w1) w1) = (w2, (r, l)) ->
     let cr := core_build (w_fs w) cachefile old svers (w_clock w) (w_nextid w) root in
     cr_outcome cr = r /\
     (exists L0, vis_log (w_log w2) = rev (cr_log cr) ++ L0) /\
     trel (c_built (w_new w2)) (view_fs w2) (cr_tree cr).
   Proof.
-    intros w cachefile old nm svers root w1 w2 r l Hwf Hok HW HKo HF Hp Hnc Hml Hd Hat Hnn Hqk Hwa Hcl Hap Emk Erun cr.
+    intros w cachefile old nm svers root w1 w2 r l Hokc Hwf Hok HW HKo HF Hp Hnc Hml Hd Hat Hnn Hqk Hwa Hcl Hap Emk Erun cr.
     destruct (sim4_start w cachefile old nm svers Hwf Hok HW HKo HF Hp Hnc Hml Hd) as (w1b & Eb & HS0 & HC0 & Hold0).
     assert (w1b = w1) by congruence. subst w1b. clear Eb. cbv zeta in HS0, HC0, Hold0.
     destruct (sim3_start w cachefile old nm svers Hwf Hok HF Hp Hd) as (w1c & Ec & Hmiss & _).
-    set (lg := LInvoke "<root>" None PNone PNone :: w_log w1) in *.
+    set (lg := LInvoke "<root>"%string None PNone PNone :: w_log w1) in *.
     set (s0 := ViewK4.core_start (w_fs w) cachefile old svers (w_clock w) (w_nextid w) lg) in *.
     (* Core's build starts from the same state, with a fresh log *)
-    assert (Ecr: cr = let '(s1, (res, _, _)) := core_run root None None [] (with_log [LInvoke "<root>" None PNone PNone] s0) in
+    assert (Ecr: cr = let '(s1, (res, _, _)) := core_run root None None [] (with_log [LInvoke "<root>"%string None PNone PNone] s0) in
                       {| cr_outcome := res; cr_tree := k_fs s1; cr_log := rev (k_log s1); cr_state := Some s1 |}).
     { unfold cr, core_build. rewrite Hmiss. cbn [mkdir_all fold_left]. reflexivity. }
-    destruct (core_run root None None [] (with_log [LInvoke "<root>" None PNone PNone] s0)) as [s1 [[res pd] sb]] eqn:Ecore.
-    destruct (core_log root None None [] s0 [LInvoke "<root>" None PNone PNone] s1 (res, pd, sb) Ecore lg) as (ex & Elog & Erun2).
+    destruct (core_run root None None [] (with_log [LInvoke "<root>"%string None PNone PNone] s0)) as [s1 [[res pd] sb]] eqn:Ecore.
+    destruct (core_log root None None [] s0 [LInvoke "<root>"%string None PNone PNone] s1 (res, pd, sb) Ecore lg) as (ex & Elog & Erun2).
     assert (Es0: with_log lg s0 = s0) by (apply (with_log_self s0)).
     rewrite Es0 in Erun2.
     destruct (core_log_noeffect root None None [] _ _ _ Ecore) as (ex' & Elog' & Hne).
     assert (ex' = ex).
-    { change (k_log (with_log [LInvoke "<root>" None PNone PNone] s0)) with [LInvoke "<root>" None PNone PNone] in Elog'.
+    { change (k_log (with_log [LInvoke "<root>"%string None PNone PNone] s0)) with [LInvoke "<root>"%string None PNone PNone] in Elog'.
       rewrite Elog in Elog'. apply app_inv_tail in Elog'. symmetry. exact Elog'. }
     subst ex'.
-    destruct (sim4_run_thm root old Hat Hqk Hwa Hcl Hap [] Hnn None None [] [] [] []
+    destruct (sim4_run_thm root old Hokc Hat Hqk Hwa Hcl Hap [] Hnn None None [] [] [] []
                 (set_log lg w1) s0 w2 r l (with_log (ex ++ lg) s1) res pd sb Hold0 HS0 HC0 I Erun Erun2)
       as (T' & W' & A1 & A2 & A3 & A4 & A5 & A6 & A7).
     rewrite Ecr. cbn [cr_outcome cr_log cr_tree].
@@ -141,3 +142,112 @@ End Main.
 Print Assumptions sim4_run_thm.
 Print Assumptions sim3_run_thm.
 Print Assumptions build_agree_thm.
+
+(* ------------------------------------------------------------------ with the decision in the form of ViewK8 *)
+Corollary sim3_run_from_K8 :
+  lookup_agree_statement -> sblookup_agree_statement -> hit_agree_hyp -> sbhit_agree_hyp ->
+  forall pr st tg pend subs subs' T W w s w' r l s' r' pend' l',
+    AllTargets tgtP pr -> NoNest st pr -> QueriesOk pr -> WfArgs pr ->
+    TargetsClear (w_old w) pr -> TargetsApart (w_old w) pr ->
+    Sim4 T W w s -> Ctx4 st tg pend w -> recs_rel subs subs' ->
+    run pr tg subs w = (w', (r, l)) -> core_run pr tg pend subs' s = (s', (r', pend', l')) ->
+    exists W' T', Sim3 W' w' s' /\ RInv2 (fun _ => True) T' w' /\ Ctx tg pend' T' w' /\
+                  r = r' /\ recs_rel l l' /\ vis_log (w_log w') = vis_log (k_log s') /\
+                  Sim4 T' W' w' s' /\ Ctx4 st tg pend' w'.
+Proof.
+  intros H1 H2 H3 H4.
+  intros pr st tg pend subs subs' T W w s w' r l s' r' pend' l'.
+  exact (sim3_run_thm (fun _ => True) (lookup_agree_of_statement H1) H3 (sblookup_agree_of_statement H2) H4
+           pr st tg pend subs subs' T W w s w' r l s' r' pend' l' I).
+Qed.
+
+Corollary build_agree_from_K8 :
+  lookup_agree_statement -> sblookup_agree_statement -> hit_agree_hyp -> sbhit_agree_hyp ->
+  forall w cachefile old nm svers root w1 w2 r l,
+    fs_wf (w_fs w) -> old_ok old cachefile -> WfCache old -> old_keys_ok old -> w_faults w = [] ->
+    path_ok (dirname cachefile) = true -> isdir (w_fs w) cachefile = false -> maxlen (w_fs w) < walk_fuel ->
+    vdir (Build.start_world w cachefile old nm svers) (dirname cachefile) = true ->
+    AllTargets tgtP root -> NoNest [] root -> QueriesOk root -> WfArgs root ->
+    TargetsClear old root -> TargetsApart old root ->
+    make_dirs (dirname cachefile) (Build.start_world w cachefile old nm svers) = (w1, inl []) ->
+    run root None [] (set_log (LInvoke "<root>"%string None PNone PNone :: w_log w1) w1) = (w2, (r, l)) ->
+    let cr := core_build (w_fs w) cachefile old svers (w_clock w) (w_nextid w) root in
+    cr_outcome cr = r /\
+    (exists L0, vis_log (w_log w2) = rev (cr_log cr) ++ L0) /\
+    trel (c_built (w_new w2)) (view_fs w2) (cr_tree cr).
+Proof.
+  intros H1 H2 H3 H4.
+  intros w cachefile old nm svers root w1 w2 r l.
+  exact (build_agree_thm (fun _ => True) (lookup_agree_of_statement H1) H3 (sblookup_agree_of_statement H2) H4
+           w cachefile old nm svers root w1 w2 r l I).
+Qed.
+
+(* ------------------------------------------------------------------ previous caches without records: no hypothesis left *)
+(* ViewXRun.norec: no record of a file or of a subbuild can be looked up (a first build; a cache
+   that only lists created directories).  Both lookups miss on both sides, so the four hypotheses
+   hold, and the theorems are unconditional. *)
+Lemma lookup_agree_norec : lookup_agree_hyp_for norec.
+Proof.
+  intros st T W w s0 p f sa skw wl cached Hn (HP & _) _ _ _ _ El.
+  rewrite (lookup_norec p f sa skw w Hn) in El. inversion El; subst wl cached.
+  split; [intros _|reflexivity].
+  unfold core_hit. rewrite (s3_old _ _ _ (s4_sim _ _ _ _ HP)). rewrite (proj1 Hn p). reflexivity.
+Qed.
+
+Lemma hit_agree_norec : hit_agree_hyp_for norec.
+Proof.
+  intros st T W w s0 p c f sa skw wl co w1 r fnode subs' ret' rr Hn _ _ _ _ _ El.
+  rewrite (lookup_norec p f sa skw w Hn) in El. discriminate.
+Qed.
+
+Lemma sblookup_agree_norec : sblookup_agree_hyp_for norec.
+Proof.
+  intros st T W w s f sa skw wl cached Hn HS _ _ _ _ _ _ El.
+  rewrite (sublookup_norec _ f w Hn) in El. inversion El; subst wl cached.
+  split; [intros _|reflexivity].
+  unfold core_subhit. rewrite (s3_old _ _ _ (Sim4_sim3 _ _ _ _ HS)).
+  pose proof (proj2 Hn (subbuild_key f sa skw)) as K.
+  destruct (subs_get (c_subs (w_old w)) (subbuild_key f sa skw)) as [[o|]|]; [destruct K|reflexivity|reflexivity].
+Qed.
+
+Lemma sbhit_agree_norec : sbhit_agree_hyp_for norec.
+Proof.
+  intros st T W w s f sa skw wl co w1 r subs' ret' rr Hn _ _ _ _ _ _ _ El.
+  rewrite (sublookup_norec _ f w Hn) in El. discriminate.
+Qed.
+
+Theorem sim3_run_norec : forall pr st tg pend subs subs' T W w s w' r l s' r' pend' l',
+  norec (w_old w) -> AllTargets tgtP pr -> NoNest st pr -> QueriesOk pr -> WfArgs pr ->
+  TargetsClear (w_old w) pr -> TargetsApart (w_old w) pr ->
+  Sim4 T W w s -> Ctx4 st tg pend w -> recs_rel subs subs' ->
+  run pr tg subs w = (w', (r, l)) -> core_run pr tg pend subs' s = (s', (r', pend', l')) ->
+  exists W' T', Sim3 W' w' s' /\ RInv2 (fun _ => True) T' w' /\ Ctx tg pend' T' w' /\
+                r = r' /\ recs_rel l l' /\ vis_log (w_log w') = vis_log (k_log s') /\
+                Sim4 T' W' w' s' /\ Ctx4 st tg pend' w'.
+Proof. exact (sim3_run_thm norec lookup_agree_norec hit_agree_norec sblookup_agree_norec sbhit_agree_norec). Qed.
+
+Theorem build_agree_norec : forall w cachefile old nm svers root w1 w2 r l,
+  norec old -> fs_wf (w_fs w) -> old_ok old cachefile -> WfCache old -> old_keys_ok old -> w_faults w = [] ->
+  path_ok (dirname cachefile) = true -> isdir (w_fs w) cachefile = false -> maxlen (w_fs w) < walk_fuel ->
+  vdir (Build.start_world w cachefile old nm svers) (dirname cachefile) = true ->
+  AllTargets tgtP root -> NoNest [] root -> QueriesOk root -> WfArgs root ->
+  TargetsClear old root -> TargetsApart old root ->
+  make_dirs (dirname cachefile) (Build.start_world w cachefile old nm svers) = (w1, inl []) ->
+  run root None [] (set_log (LInvoke "<root>"%string None PNone PNone :: w_log w1) w1) = (w2, (r, l)) ->
+  let cr := core_build (w_fs w) cachefile old svers (w_clock w) (w_nextid w) root in
+  cr_outcome cr = r /\
+  (exists L0, vis_log (w_log w2) = rev (cr_log cr) ++ L0) /\
+  trel (c_built (w_new w2)) (view_fs w2) (cr_tree cr).
+Proof. exact (build_agree_thm norec lookup_agree_norec hit_agree_norec sblookup_agree_norec sbhit_agree_norec). Qed.
+
+Print Assumptions sim3_run_norec.
+Print Assumptions build_agree_norec.
+Print Assumptions sim3_run_from_K8.
+Print Assumptions build_agree_from_K8.
+Check sim4_run_thm.
+Check sim3_run_thm.
+Check build_agree_thm.
+
+(* in particular every first build (no cache file yet: the previous cache is the empty one) *)
+Lemma norec_empty : forall nm v, norec (empty_cache nm v).
+Proof. intros nm v. split; [intro p; reflexivity|intro k; exact I]. Qed.
